@@ -1,7 +1,7 @@
 """C09 — retries are bounded, follow the configured backoff, and return the last outcome."""
 from __future__ import annotations
 
-from ..model import Program
+from ..model import Program, norm as _norm
 from ..report import Check
 from ..util import short
 from .cfacts import backoff_facts, clients, retried_facts, retry_loop_facts, retry_loops, send_return_kinds
@@ -57,6 +57,27 @@ def run(ck: Check, prog: Program) -> None:
         ck.ob('STRATEGY-SELECT', f'{cr.cls.name}: STRATEGY-SELECT', not problems, sample={'facts': facts})
         for rule, construct, line, msg in problems:
             ck.finding(rule, cr.retried_wrapper.qualname, construct, cr.cls.module.rel, line, msg)
+    # the per-request strategy travels as `_retry_strategy`: wherever a client function names it as a parameter its default is UNSET
+    # ("not given: use the client-wide strategy") — None means "retries explicitly disabled", so a None default on the way silently
+    # switches the client-wide strategy off for that way of sending
+    import ast as _ast
+    from ..util import is_unset_expr as _isu
+    n_par = 0
+    for f_ in prog.iter_funcs():
+        if f_.module.name != 'pjrpc.client.client' or not isinstance(f_.node, (_ast.FunctionDef, _ast.AsyncFunctionDef)):
+            continue
+        for p_ in f_.params:
+            if p_.arg.lstrip('_') == 'retry_strategy' and p_.arg.startswith('_'):
+                n_par += 1
+                d_ = f_.param_default(p_.arg)
+                ok_ = d_ is not None and _isu(prog, f_, d_)
+                ck.ob('STRATEGY-SELECT', f'{short(f_.qualname)}: `{p_.arg}` defaults to UNSET', ok_)
+                if not ok_:
+                    ck.finding('STRATEGY-SELECT', f_.qualname, f'`{p_.arg}` defaults to {_norm(d_) if d_ is not None else "nothing"}', f_.module.rel, f_.node.lineno,
+                               f'{short(f_.qualname)} takes the per-request strategy with the default `{_norm(d_) if d_ is not None else "<required>"}` and hands it on: the '
+                               f'retrying wrapper reads anything but UNSET as an explicit per-request choice, so requests sent this way (batches) are '
+                               f'never re-sent although the client was built with a retry strategy')
+    ck.require('STRATEGY-SELECT', 'per-request strategy parameters in the client module', n_par, 4)
     ck.require('RETRY-BOUND', 'retry loops', len(loops), 2)
 
 
